@@ -293,23 +293,48 @@ def check_owners(program, rep):
     names = {evrules.EVENTS.split('.')[-1], evrules.HANDLERS.split('.')[-1]}
     n = 0
     bad = None
+    from rules.util import self_writes as _sw
     for f in program.all_functions():
         for a in ast.walk(f.node):
             if isinstance(a, ast.Attribute) and a.attr in names:
                 n += 1
-                if id(f) not in inside and bad is None:
-                    bad = (f, a)
+        if id(f) in inside:
+            continue
+        # outside the dispatcher the tables may be READ (a loop that does so
+        # is held to the dereference rule, C10.deref); changing them there
+        # bypasses the bookkeeping that keeps both tables and the weak
+        # reference callbacks in step
+        for x in ast.walk(f.node):
+            tg = []
+            if isinstance(x, ast.Assign):
+                tg = x.targets
+            elif isinstance(x, (ast.AugAssign, ast.AnnAssign)):
+                tg = [x.target]
+            elif isinstance(x, ast.Delete):
+                tg = x.targets
+            elif isinstance(x, ast.Call) and isinstance(
+                    x.func, ast.Attribute) and x.func.attr in (
+                        'add', 'remove', 'discard', 'pop', 'clear', 'update',
+                        'setdefault', 'popitem', '__setitem__',
+                        '__delitem__'):
+                tg = [x.func.value]
+            for t in tg:
+                base = t
+                while isinstance(base, ast.Subscript):
+                    base = base.value
+                if isinstance(base, ast.Attribute) and base.attr in names \
+                        and bad is None:
+                    bad = (f, x)
     rep.check(bad is None, 'C10.owners', bad[0].where if bad else
               f'{disp.module.relpath}:EventDispatcher',
               bad[1] if bad else 'self._events / self._handlers',
-              f'the listener tables are touched by dispatcher methods only '
-              f'({n} accesses)',
-              (f'{bad[0].qualname} reads the listener table of a dispatcher '
-               'directly: deliveries made from it do not go through '
-               'dispatch() and its dead-receiver test - a handler whose '
-               'owner was removed by an earlier callback is called with '
-               'self=None') if bad else '',
-              line=bad[1].lineno if bad else None)
+              f'the listener tables are changed by dispatcher methods only '
+              f'({n} accesses in the package)',
+              (f'{bad[0].qualname} changes the listener tables of a '
+               'dispatcher from outside the class: the two tables (and the '
+               'weak-reference callbacks registered for their entries) are '
+               'no longer kept in step by add_handler / remove_handler') if bad
+              else '', line=getattr(bad[1], 'lineno', None) if bad else None)
     rep.floor('C10.owners', 'accesses of the listener tables', n, 4)
 
 
@@ -318,8 +343,10 @@ def check_inline_deref(program, rep):
     dispatcher (fast paths outside the listener loops included)."""
     disp = evrules.dispatcher_class(program)
     n_calls = 0
-    for c in [disp] + program.subclasses(disp):
-        for f in c.methods.values():
+    # (every function of the package that touches a listener table: a copy of
+    # the delivery loop outside the dispatcher is held to the same rule)
+    for f in program.all_functions():
+        if True:
             if not any(isinstance(x, ast.Attribute) and x.attr == '_events'
                        for x in ast.walk(f.node)):
                 continue
